@@ -1197,6 +1197,37 @@ fn run(f: &[&str]) -> Option<String> {
         // read are ever touched): a declared length is honoured whatever follows it, however much of it there is
         // encoding into a writer that already holds 2^32 octets and more (zero octets, lazily mapped; only the first
         // MiB, the last pages in front of the new octets and the new octets themselves are looked at afterwards)
+        // the same encode, called while the thread is unwinding from a panic (from a destructor, as a connection object
+        // that says goodbye in its Drop would): what is encoded does not depend on what else the thread is doing
+        "encunw" => {
+            let t = TMsg::parse(f.get(1)?)?;
+            let m = t.to_crate()?;
+            let fresh = enc_msg_into(&[], &m).data;
+            match fresh {
+                None => "panic | ok".to_string(),
+                Some(want) => {
+                    struct Goodbye<'a> {
+                        m: &'a Message<Vec<u8>>,
+                        out: &'a std::cell::RefCell<Option<Vec<u8>>>,
+                    }
+                    impl<'a> Drop for Goodbye<'a> {
+                        fn drop(&mut self) {
+                            let mut w = VecWriter::new();
+                            self.m.write(&mut w);
+                            *self.out.borrow_mut() = Some(std::mem::take(&mut w.data));
+                        }
+                    }
+                    let cell = std::cell::RefCell::new(None);
+                    let _ = catch_unwind(AssertUnwindSafe(|| {
+                        let _g = Goodbye { m: &m, out: &cell };
+                        panic!("unwinding");
+                    }));
+                    let got = cell.borrow().clone();
+                    let orc = if got.as_ref() == Some(&want) { "ok".to_string() } else { "FAIL:c19-unwinding:octets-differ-when-encoded-during-unwinding&FAIL:c06-octets:octets-differ-when-encoded-during-unwinding".to_string() };
+                    format!("ok {} | {}", got.map(|d| hex(&d)).unwrap_or("none".into()), orc)
+                }
+            }
+        }
         "encbig" | "encabig" => {
             let size: usize = f.get(1)?.parse().ok()?;
             if size > (1usize << 33) {
